@@ -54,7 +54,7 @@ import (
 // ---------------------------------------------------------------------------------------------
 // behaviours
 
-var rfcBehaviours = []string{"valid", "mods", "dwrap", "wnonce", "nononce", "wimprint", "walg", "rej2", "rej3", "rejtok", "badsig",
+var rfcBehaviours = []string{"valid", "mods", "dwrap", "wnonce", "nononce", "wimprint", "walg", "rej2", "rej3", "rej4", "rej5", "rejtok", "rejtok3", "rejtok4", "rejtok5", "rejtok6", "badsig",
 	"rogue", "http404", "http500", "reset", "hang", "cancel", "garbage", "trailing", "notoken", "empty", "badtst"}
 
 var legacyBehaviours = []string{"valid", "wimprint", "badsig", "transplant", "rogue", "notime", "http500", "reset", "hang", "cancel",
@@ -483,6 +483,9 @@ func (t *tsaServer) handle(w http.ResponseWriter, r *http.Request) {
 		status = int(beh[3] - '0')
 	case "rejtok":
 		status = 2 // rejection that nevertheless carries a perfectly good token
+	case "rejtok3", "rejtok4", "rejtok5", "rejtok6":
+		// waiting / revocationWarning / revocationNotification / a value outside the enumeration, each with a perfectly good token
+		status = int(beh[6] - '0')
 	case "badsig":
 		o.badsig = true
 	case "rogue":
@@ -499,7 +502,7 @@ func (t *tsaServer) handle(w http.ResponseWriter, r *http.Request) {
 		return
 	}
 	resp := pkcs9.TimeStampResp{Status: pkcs9.PKIStatusInfo{Status: status}}
-	if (status <= 1 && beh != "notoken") || beh == "rejtok" {
+	if (status <= 1 && beh != "notoken") || strings.HasPrefix(beh, "rejtok") {
 		psd = issueRFC(id, alg, hashed, nonce, at, serial, o)
 		record(psd)
 		resp.TimeStampToken = *psd
